@@ -50,13 +50,13 @@ class Prop(BaseProp):
         cases = []
         kinds = ["random", "zeros", "text", "f32", "f16ish", "periodic4"]
         schemes = ["none", "lz4", "bg4", "auto"]
-        plans = [1, 2, 3, 4, 5, 8, 13, 40] if not big else [1, 2, 3, 4, 5, 8, 13, 40, 100, 300]
+        plans = [1, 2, 3, 4, 5, 8, 13, 40] if not big else [1, 2, 3, 4, 5, 8, 13, 40, 100, 200]
         for n in plans:
             for sch in schemes:
                 chunks = []
                 for j in range(n):
                     ln = rng.choice([1, 2, 3, 4, 5, 6, 7, 8, 63, 64, 65, 100, 257, 1000, rng.randrange(1, 2000)])
-                    if big and rng.random() < 0.02:
+                    if big and n <= 40 and rng.random() < 0.02:
                         ln = rng.choice([65536, 131072, 100003])
                     chunks.append(gen_chunk(rng, rng.choice(kinds), ln))
                 if n <= 5:
@@ -79,7 +79,7 @@ class Prop(BaseProp):
         lens = range(0, 70) if not big else range(0, 4100)
         for ln in lens:
             bcases.append({"id": "g%d" % ln, "text": hexs(bytes(rng.getrandbits(8) for _ in range(ln))), "meta": {"n": 2 if ln > 4 else 1, "scheme": "bg4raw"}})
-        return [{"name": "c07", "cases": cases, "prep": "c07prep"}, {"name": "bg4", "cases": bcases}]
+        return [{"name": "c07", "cases": cases, "prep": "c07prep", "timeout": 1500 if not big else 3000}, {"name": "bg4", "cases": bcases}]
 
     def nontrivial(self, stream, case, io):
         if case["meta"]["n"] >= 2:
